@@ -433,7 +433,10 @@ class Spec:
             return {"o": "iter", "k": ty["o"]}
         return {"o": "dict"}
 
-    def pred(self, p, stack):
+    def pred(self, p, stack, hide=False):
+        """`hide`: the last location carries a type hint tag (NotRequired[T] / Annotated[T, ...]) and the request is
+        posed with the declared hint - a predicate on the *type* of that location sees the tag, not T (the origin of
+        NotRequired[str] is not str); names, ANY and the enclosing locations are unaffected"""
         k = p["p"]
         last = stack[-1]
         is_field = last["kind"] in ("field", "in", "out", "func")
@@ -446,19 +449,19 @@ class Spec:
         if k == "any":
             return True
         if k == "origin":
-            return self.origin_of(last["ty"]) == p["o"]
+            return not hide and self.origin_of(last["ty"]) == p["o"]
         if k == "garg":       # P.generic_arg(pos, q) = GenericParamLSC(pos) & q: the last location is the pos-th
             #                   type argument of its parent (dict key 0 / value 1, element 0, Optional's type 0)
-            return last["kind"] == "gparam" and last["pos"] == p["pos"] and self.pred(p["q"], stack)
+            return last["kind"] == "gparam" and last["pos"] == p["pos"] and self.pred(p["q"], stack, hide)
         if k == "end":
             els = p["stack"]
             if len(stack) < len(els):
                 return False
-            return all(self.pred(el, stack[:len(stack) - i]) for i, el in enumerate(reversed(els)))
+            return all(self.pred(el, stack[:len(stack) - i], hide and i == 0) for i, el in enumerate(reversed(els)))
         if k == "or":
-            return any(self.pred(q, stack) for q in p["ps"])
+            return any(self.pred(q, stack, hide) for q in p["ps"])
         if k == "not":
-            return not self.pred(p["q"], stack)
+            return not self.pred(p["q"], stack, hide)
         raise ValueError(k)
 
     # -- type hint tags (Annotated / NotRequired) of a field declaration: invisible to every rule, recorded on
@@ -549,6 +552,17 @@ class Spec:
         return getattr(data, f["id"])
 
     def user_coercer(self, src_stack, dst_stack):
+        # A field declared NotRequired[T] / Annotated[T, ...] is first requested with the declared hint: recipe entries
+        # are asked in order with the tag in place (a predicate on the type T does not hold of the tagged hint; names,
+        # ANY and parents do). Only when no entry takes it does the builtin unwrapping provider (last in the recipe) pose
+        # the request again for the bare types. So an earlier type-bound coercer can lose to a later type-agnostic one
+        # on a tagged field - first match in recipe order for the request as posed (C09 / C10 semantics of predicates).
+        hide_s, hide_d = src_stack[-1].get("tag") is not None, dst_stack[-1].get("tag") is not None
+        if hide_s or hide_d:
+            for prov in self.recipe:
+                if prov["k"] == "coercer" and self.pred(prov["src"], src_stack, hide_s) and self.pred(prov["dst"], dst_stack, hide_d):
+                    self.stats["val-user-coercer:matched-the-tagged-hint"] += 1
+                    return prov["f"]
         for prov in self.recipe:
             if prov["k"] == "coercer" and self.pred(prov["src"], src_stack) and self.pred(prov["dst"], dst_stack):
                 return prov["f"]
